@@ -209,3 +209,21 @@ func Handle(c *core.Check, st core.State) {
 		}
 	}
 }
+
+// Source assembles the file text written by an MC_C02 state.
+func Source(st core.State) string {
+	var sb strings.Builder
+	for _, l := range tla.Seq(st.Vars["out"]) {
+		s := tla.Str(l)
+		if s == "DROPEOL" {
+			cur := sb.String()
+			cur = strings.TrimSuffix(cur, "\n")
+			cur = strings.TrimSuffix(cur, "\r")
+			sb.Reset()
+			sb.WriteString(cur)
+			continue
+		}
+		sb.WriteString(lexemeText(s))
+	}
+	return sb.String()
+}
